@@ -10,7 +10,7 @@ survives the wire).  Both are transcribe-and-cover checks:
                  decides VIOLATION) and the conformance spec (Trace_*: the transcription must
                  predict every recorded real output; a difference is drift, never a verdict).
 """
-import json, os, re
+import json, os, re, threading
 import vlib
 
 PROPERTIES = ["C26", "C37"]
@@ -27,10 +27,27 @@ def _marks(out, marker):
 
 
 def _judge(ctx, spec, trace, nlines, abs_cfg, conf_cfg, timeout, conf_module=None):
-    mon = ctx.tlc(spec, abs_cfg, dfs=True, files={"trace.ndjson": trace}, timeout=timeout, heap="12g")
+    """Monitor and conformance read the same recording; they are independent, so they run side by side."""
+    res = {}
+
+    def go(name, **kw):
+        try:
+            res[name] = ctx.tlc(spec, dfs=True, files={"trace.ndjson": trace}, timeout=timeout, heap="12g", **kw)
+        except Exception as e:       # re-raised in the main thread
+            res[name] = e
+    t = threading.Thread(target=go, args=("conf",), kwargs=dict(cfg=conf_cfg, module=conf_module, expect_fail=True))
+    t.start()
+    go("mon", cfg=abs_cfg)
+    t.join()
+    mon, conf = res["mon"], res["conf"]
+    if isinstance(mon, Exception):
+        raise mon
+    if isinstance(conf, Exception):
+        if isinstance(conf, vlib.Infra):
+            raise conf
+        raise vlib.Infra("conformance run failed: %r" % (conf,))
     if mon.depth != nlines + 1:
         raise vlib.Infra("monitor did not consume the whole trace (%d of %d)" % (mon.depth - 1, nlines))
-    conf = ctx.tlc(spec, conf_cfg, module=conf_module, dfs=True, files={"trace.ndjson": trace}, timeout=timeout, heap="12g", expect_fail=True)
     drift = _marks(conf.out, "DRIFT")
     drift_note = None
     if conf.error or conf.violated:
@@ -67,6 +84,7 @@ def run_c26(ctx, pid):
     trace = ctx.tmp("trace.ndjson")
     p = ctx.run([exe, "addr", cfile, trace], timeout=600)
     stats = json.loads(p.stdout.strip().splitlines()[-1])
+    ctx.log("driver: %s" % json.dumps(stats))
     nlines = stats["events"]
     if nlines != len(cases):
         raise vlib.Infra("driver recorded %d of %d cases" % (nlines, len(cases)))
@@ -157,10 +175,12 @@ def run_c37(ctx, pid):
     trace = ctx.tmp("trace.ndjson")
     p = ctx.run([exe, "spawn", cfile, trace], timeout=1200)
     stats = json.loads(p.stdout.strip().splitlines()[-1])
+    ctx.log("driver: %s" % json.dumps(stats))
     nlines = stats["events"]
     n_reloc_expected = sum(1 for c in cases if c["relocatable"])
-    if stats["remote"] != len(cases) or stats["relocate"] != n_reloc_expected:
-        raise vlib.Infra("driver executed %d remote / %d relocate of %d / %d" % (stats["remote"], stats["relocate"], len(cases), n_reloc_expected))
+    if stats["remote"] != len(cases) or stats["child"] != len(cases) or stats["relocate"] != n_reloc_expected:
+        raise vlib.Infra("driver executed %d remote / %d child / %d relocate of %d / %d / %d"
+                         % (stats["remote"], stats["child"], stats["relocate"], len(cases), len(cases), n_reloc_expected))
 
     # 3. TLC judges the recording
     mism, drift, drift_note = _judge(ctx, spec, trace, nlines, "Trace_SpawnConfigAbs.cfg",
@@ -190,12 +210,12 @@ def run_c37(ctx, pid):
         "evaluations": nlines, "distinct_nontrivial": len({key(c) for c in cases if nontrivial(c)}),
         "rule": "TLC enumerates the full product of the choice sets of MC_SpawnConfig.tla (supervisor: absent or strategy x directive rules "
                 "x retry x backoff; passivation; reentrancy; stash; role; dependencies; init timeout; relocatable); every configuration is "
-                "spawned for real and carried over the remote-spawn path (TCP loopback) and, when relocatable, over the relocation path "
-                "(toSerialize -> proto bytes -> wireSpawnOptions); evaluations = recorded (configuration, path) pairs; non-trivial = "
+                "spawned for real and carried over the remote-spawn path and the remote-child-spawn path (TCP loopback) and, when relocatable, "
+                "over the relocation path (toSerialize -> proto bytes -> wireSpawnOptions); evaluations = recorded (configuration, path) pairs; non-trivial = "
                 "configurations setting at least two of the seven option groups (distinct configurations counted)",
-        "samples": [{"path": r["path"], "cfg": r["cfg"], "local": r["local"], "copy": r["copy"]} for r in rows[:2]],
+        "samples": [{"path": r["path"], "cfg": r["cfg"], "local": r["local"], "copy": r["copy"]} for r in rows[:3]],
         "exhaustive": True, "states": ctx.states()[0], "transitions": ctx.states()[1],
-        "configurations": len(cases), "remote_spawn_pairs": stats["remote"], "relocation_pairs": stats["relocate"],
+        "configurations": len(cases), "remote_spawn_pairs": stats["remote"], "remote_child_pairs": stats["child"], "relocation_pairs": stats["relocate"],
         "driver_errors": stats["errors"], "monitor_mismatches": len(mism), "known_finding_lines": len(known_lines),
         "conformance_drift": drift_note, "drift_lines": len(drift),
         "conformance_model": "as found (Defects={BackoffNotOnWire})" if known else "repaired (Defects={})",
@@ -206,7 +226,8 @@ def run_c37(ctx, pid):
                    "observation = the verif-tag projection VerifObserveSpawn of the PID's fields (supervisor incl. backoff and directive table, "
                    "passivation strategy, reentrancy state, stash, role, dependencies with their serialized payload, init-timeout override, relocatable)",
                    "relocation is exercised from toSerialize to wireSpawnOptions+Spawn on a second node (the cluster registry around "
-                   "recreateActorFromWire is not started); remote spawn runs the real client, TCP loopback and server handler",
+                   "recreateActorFromWire is not started); remote spawn and remote child spawn run the real client, TCP loopback and server handlers; "
+                   "the reference for a remote child is a child spawned locally by the same parent (children never get role/reentrancy, by goakt's design)",
                    "singleton, reliable-delivery and mailbox options are outside the property's list and not enumerated",
                    "trusted: TLC, the JSON trace I/O, the shim's field projection"]
     if bad:
